@@ -6,6 +6,7 @@ from concurrent.futures import ThreadPoolExecutor
 import common
 import gen
 import pipeline
+import tours as tours_mod
 from check import Finding, Outcome
 from common import ToolError, log
 
@@ -270,6 +271,14 @@ class NetProp:
     def run(self, prop, tier, seed):
         out = Outcome()
         insts = self.gen_instances(tier, seed)
+        # all tiny networks enumerated by TLC (Gen_Tour: ties, zero shunting, forbidden / asymmetric /
+        # faster-than-shunting dead-heads); Gen_Tour!ReachLaws is checked on each of them
+        bnd = {"MaxActs": "2", "MaxMnt": "1", "Starts": "{0,1}", "Durs": "{1,2}"} if tier == "quick" else \
+              {"MaxActs": "2", "MaxMnt": "1", "Starts": "{0,1,2}", "Durs": "{1,2}"}
+        cases = tours_mod.run_gen(tier, out, bnd=bnd)
+        tiny = [gen.complete_view(c["I"], name="tlc%d" % k) for k, c in enumerate(cases)]
+        out.coverage["tlc_enumerated_networks"] = len(tiny)
+        insts = insts + tiny
         self.validate(prop, insts, out)
         tags = {}
         for I in insts:
@@ -438,7 +447,6 @@ for _p in ("C09", "C10", "C13"):
 
 
 # =========================================================================== C12 tour edits
-import tours as tours_mod  # noqa: E402
 
 C12_INVS = ["P_C12_nopanic", "P_C12_loads", "P_C12_mat", "P_C12_insert", "P_C12_conflict", "P_C12_position",
             "P_C12_removable", "P_C12_remove", "P_C12_subpath", "P_C12_depots", "P_C09_tourfig"]
